@@ -103,13 +103,15 @@ class InMemoryStorage(BaseStorage):
         with self._lock:
             self._check_study_id(study_id)
 
-            self._studies[study_id].user_attrs[key] = value
+            study = self._studies[study_id]
+            study.user_attrs = {**study.user_attrs, key: value}
 
     def set_study_system_attr(self, study_id: int, key: str, value: JSONSerializable) -> None:
         with self._lock:
             self._check_study_id(study_id)
 
-            self._studies[study_id].system_attrs[key] = value
+            study = self._studies[study_id]
+            study.system_attrs = {**study.system_attrs, key: value}
 
     def get_study_id_from_name(self, study_name: str) -> int:
         with self._lock:
